@@ -84,12 +84,19 @@ def gen_case(seed, idx):
         via = "remote" if hist[-1][0] == "netfault" else rng.choice(["local", "remote"])
         hist.append(["buildB", via])
     hist.append(["buildB_noext", None])
+    # entities B defines itself with the names of public entities of A (of the same and of another kind)
+    own = None
+    a_types = [e["name"] for m in w["mods"][:k] for e in m["ents"] if e["kind"] == "type" and usemodel.effective_access(m, e) == "public"]
+    a_subs = [e["name"] for m in w["mods"][:k] for e in m["ents"] if e["kind"] in ("sub", "func") and usemodel.effective_access(m, e) == "public"]
+    if (a_types or a_subs) and rng.random() < 0.6:
+        own = {"proc_named_like_type": rng.choice(a_types) if a_types and rng.random() < 0.7 else None,
+               "proc_named_like_proc": rng.choice(a_subs) if a_subs and rng.random() < 0.7 else None}
     zsplit = 0
     if k >= 2 and rng.random() < 0.4:
         zsplit = rng.randint(1, k - 1)   # a third project Z that A itself lists as external (chain Z -> A -> B)
     if clash and clash in [m["name"] for m in w["mods"][:zsplit]]:
         clash = None
-    return {"idx": idx, "world": w, "split": k, "zsplit": zsplit, "clash": clash, "history": hist,
+    return {"idx": idx, "world": w, "split": k, "zsplit": zsplit, "clash": clash, "own": own, "history": hist,
             "b_refs": rng.random() < 0.8, "url_trailing_slash": rng.random() < 0.5,
             "local_abs": rng.random() < 0.3, "b_cwd": rng.choice(["proj", "proj", "parent"])}
 
@@ -134,6 +141,15 @@ def build_files(case, seed):
         fb["B/src/b_clash.f90"] = ("module %s\n  !! B's own module with the name of a module of A bclashtracerq\n  implicit none\n"
                                    "  integer :: bclash_var\nend module %s\n\nprogram bclashprog\n  !! uses B's own %s: [[%s]]\n  use %s\n"
                                    "  implicit none\n  bclash_var = 1\nend program bclashprog\n" % (c, c, c, c, c))
+    own = case.get("own") or {}
+    names = [n for n in (own.get("proc_named_like_type"), own.get("proc_named_like_proc")) if n]
+    if names:
+        L = ["module bownmod", "  !! B's own entities named like public entities of A: " + " ".join("[[%s]]" % n for n in names),
+             "  implicit none", "contains"]
+        for n in names:
+            L += ["  subroutine %s()" % n, "    !! B's own %s bowntracerq" % n, "  end subroutine %s" % n]
+        L.append("end module bownmod")
+        fb["B/src/b_own.f90"] = "\n".join(L) + "\n"
     return fa, fb
 
 
@@ -389,6 +405,28 @@ def check_i3(case, root):
 
 def check_i4(case, root, bdoc):
     findings = []
+    own = case.get("own") or {}
+    pub = os.path.join(root, "pub")
+    p = os.path.join(bdoc, "module", "bownmod.html")
+    for key in ("proc_named_like_type", "proc_named_like_proc"):
+        n = own.get(key)
+        if not n or not os.path.isfile(p):
+            continue
+        links, html = links_of(p)
+        mine = os.path.join(bdoc, "proc", n.lower() + ".html")
+        # the [[name]] reference in the module's documentation text (the first link with that text)
+        hits = [(u, t) for u, t in links if t.lower() == n.lower()]
+        if not os.path.isfile(mine):
+            findings.append(("I4/own-entity-page-missing", "B's own procedure %s has no page proc/%s.html" % (n, n.lower())))
+        # ... and the same reference on the front page, where the lookup is project-wide
+        ip = os.path.join(bdoc, "index.html")
+        if os.path.isfile(ip):
+            for u, t in links_of(ip)[0]:
+                if t.lower() == n.lower() and into_a(u, ip, pub, "any") is not None:
+                    findings.append(("I4/external-wins-frontpage/%s" % key, "B defines procedure %s itself, but [[%s]] on B's front page links to A's documentation (%s)" % (n, n, u)))
+        for u, t in hits:
+            if into_a(u, p, pub, "any") is not None:
+                findings.append(("I4/external-wins/%s" % key, "B defines procedure %s itself, but module/bownmod.html links '%s' to A's documentation (%s)" % (n, t, u)))
     if not case["clash"]:
         return findings
     c = case["clash"].lower()
@@ -462,6 +500,9 @@ def evaluate(case, seed, workdir, history=None):
         refs = [m["name"] for m in case["world"]["mods"][case.get("zsplit", 0):k]]
         bbody += "References: " + " ".join("[[%s]]" % r for r in refs[:3]) + "\n"
         bbody += "Variables: " + " ".join("[[%s:%s]]" % mv for mv in ref_vars(case)) + "\n"
+    own_names = [n for n in ((case.get("own") or {}).get("proc_named_like_type"), (case.get("own") or {}).get("proc_named_like_proc")) if n]
+    if own_names:
+        bbody += "Own: " + " ".join("[[%s]]" % n for n in own_names) + "\n"
     if case.get("zsplit"):
         zo = {"project": "Z", "src_dir": "./src", "output_dir": "./doc", "preprocess": False, "parallel": 0, "search": False,
               "graph": False, "externalize": True}
@@ -606,6 +647,10 @@ def candidates(case):
         c = copy.deepcopy(case)
         c["clash"] = None
         yield "no clash", c
+    if case.get("own"):
+        c = copy.deepcopy(case)
+        c["own"] = None
+        yield "no own entities", c
     if case.get("zsplit"):
         c = copy.deepcopy(case)
         c["zsplit"] = 0
